@@ -389,6 +389,15 @@ pub struct Var {
     pub kind: VarKind,
 }
 
+/// Blob fields and enum variants are kept in hash maps. They're visited in
+/// the order they're written, so the first reported error doesn't depend on
+/// the hash seed.
+fn in_source_order<T>(items: &HashMap<Identifier, T>) -> Vec<(&Identifier, &T)> {
+    let mut items: Vec<_> = items.iter().collect();
+    items.sort_by_key(|(ident, _)| (ident.span.line_start, ident.span.col_start));
+    items
+}
+
 #[derive(Debug, Clone, PartialEq)]
 enum Name {
     Name(Ref),
@@ -899,8 +908,8 @@ impl Resolver {
                     var,
                     span,
                     variables: variables.iter().map(|var| var.name.clone()).collect(),
-                    fields: fields
-                        .iter()
+                    fields: in_source_order(fields)
+                        .into_iter()
                         .map(|(field, ty)| Ok((field.name.clone(), (field.span, self.ty(ty)?))))
                         .collect::<ResolveResult<_>>()?,
                     external: *external,
@@ -913,8 +922,8 @@ impl Resolver {
                     var,
                     span,
                     variables: variables.iter().map(|var| var.name.clone()).collect(),
-                    variants: variants
-                        .iter()
+                    variants: in_source_order(variants)
+                        .into_iter()
                         .map(|(var, ty)| Ok((var.name.clone(), (var.span, self.ty(ty)?))))
                         .collect::<ResolveResult<_>>()?,
                 })
